@@ -54,8 +54,8 @@ def kex_methods() -> List[str]:
     return [k.decode() for k in get_kex_algs() if not k.startswith(b'gss-')]
 
 
-def host_key_for(kex: str):
-    if kex.startswith('rsa'):
+def host_key_for(kex: str, pref: str = 'default'):
+    if kex.startswith('rsa') or pref == 'rsa':
         return [memwire.key('host-rsa', 'ssh-rsa')]
     return [memwire.key('host')]
 
@@ -159,8 +159,33 @@ def edit_kexmsg(payload: bytes, e: Dict[str, Any]) -> Tuple[bytes, str]:
 
     k = e['field'] % len(fields)
     kind, content = fields[k]
+    op = e['op'] % 7
+
+    if op == 6:
+        # a different encoding of the SAME key: every mpint of an ssh-rsa
+        # blob (host key K_S, transient key K_T of RFC 4432) gets a leading
+        # zero byte.  These fields enter the exchange hash as strings, i.e.
+        # as the bytes that crossed the wire: the handshake has to fail.
+        # (Fields hashed as mpint VALUES - e, f, p, g - are not touched.)
+        blobs = [i for i, (kd, c) in enumerate(fields)
+                 if kd == 'str' and c.startswith(string(b'ssh-rsa'))]
+
+        if blobs:
+            k = blobs[e['field'] % len(blobs)]
+            blob = fields[k][1]
+            parts = split_fields(blob)
+
+            if len(parts) == 3 and all(kd == 'str' for kd, _ in parts):
+                new = string(parts[0][1]) + b''.join(
+                    string(b'\0' + c) for _, c in parts[1:])
+                fields[k] = ('str', new)
+                body = b''.join(string(c) if kd == 'str' else c
+                                for kd, c in fields)
+                return payload[:1] + body, 'f%d:str:reencode-key' % k
+
+        op = 0
+
     content = bytearray(content)
-    op = e['op'] % 6
 
     if kind == 'u32':
         v = int.from_bytes(content, 'big')
@@ -306,7 +331,7 @@ def run_edit(case) -> CaseResult:
     kex = case['kex']
     e = case['edit']
     log: List[Any] = []
-    pair = Pair({'kex_algs': [kex], 'server_host_keys': host_key_for(kex),
+    pair = Pair({'kex_algs': [kex], 'server_host_keys': host_key_for(kex, case.get('hostkey', 'default')),
                  'server_factory': make_server(log)},
                 {'kex_algs': [kex], 'client_factory': lambda: LogClient(log)})
     h = pair.h
@@ -393,6 +418,8 @@ def run_edit(case) -> CaseResult:
                              e['target'] + ':' +
                              editor.applied.split(':')[0]),
                   fam + '/' + e['target']]
+        if 'reencode-key' in editor.applied:
+            labels.append('edit:reencode-key:' + fam)
         return CaseResult(labels, True, [kex, e['target'], e['dir'],
                                          editor.applied])
     finally:
@@ -422,9 +449,11 @@ def edit_strategy(tier: str):
         'target': pick(['version', 'kexinit', 'kexinit', 'kexmsg',
                                    'kexmsg', 'kexmsg']),
         'index': pick(range(3)), 'field': pick(range(13)),
-        'op': pick(range(210)), 'pos': st.integers(0, 600),
+        'op': st.one_of(pick(range(210)), pick(range(210)), st.just(6)),
+        'pos': st.integers(0, 600),
         'bit': st.integers(0, 7)})
     return st.fixed_dictionaries({'kex': pick(methods),
+                                  'hostkey': pick(['default', 'rsa']),
                                   'edit': edit})
 
 
@@ -830,7 +859,8 @@ FAMILIES = [
            required={'all': ['target:version', 'target:kexinit',
                              'target:kexmsg', 'dir:cs', 'dir:sc',
                              'edit:version:trailing-space',
-                             'edit:version:char'] +
+                             'edit:version:char', 'edit:reencode-key:rsa',
+                             'edit:reencode-key:dh-group'] +
                      [f + '/' + t for f in ('pq-hybrid', 'curve25519',
                                             'curve448', 'ecdh-nist', 'gex',
                                             'rsa', 'dh-group')
